@@ -133,7 +133,10 @@ static struct yytbl_data *mkctbl (void)
 	yytbl_data_init (tbl, YYTD_ID_TRANSITION);
 	tbl->td_flags = YYTD_DATA32 | YYTD_STRUCT;
 	tbl->td_hilen = 0;
-	tbl->td_lolen = (flex_uint32_t) (tblend + 2 + 1);	/* number of structs */
+	/* number of structs: the end-of-buffer state at the end of the table
+	 * is followed by numecs jam entries (all zero), see genctbl()
+	 */
+	tbl->td_lolen = (flex_uint32_t) (tblend + 2 + 1 + numecs);
 
 	tbl->td_data = tdata =
 		calloc(tbl->td_lolen * 2, sizeof (flex_int32_t));
@@ -249,7 +252,7 @@ static void genctbl(void)
 	int     end_of_buffer_action = num_rules + 1;
 
 	/* Table of verify for transition and offset to next state. */
-	out_dec ("m4_define([[M4_HOOK_TRANSTABLE_SIZE]], [[%d]])", tblend + 2 + 1);
+	out_dec ("m4_define([[M4_HOOK_TRANSTABLE_SIZE]], [[%d]])", tblend + 2 + 1 + numecs);
 	outn ("m4_define([[M4_HOOK_TRANSTABLE_BODY]], [[m4_dnl");
 
 	/* We want the transition to be represented as the offset to the
@@ -317,8 +320,17 @@ static void genctbl(void)
 	transition_struct_out (chk[tblend + 1], nxt[tblend + 1]);
 	transition_struct_out (chk[tblend + 2], nxt[tblend + 2]);
 
+	/* A NUL in the middle of the input takes the matcher into the
+	 * end-of-buffer state like a real end of buffer does, and the match
+	 * loop then indexes that state with the character after the NUL
+	 * before it notices.  Give it jam entries to land on instead of
+	 * reading past the end of the table.
+	 */
+	for (i = 0; i < numecs; ++i)
+		transition_struct_out (0, 0);
+
 	outn ("]])");
-	footprint += sizeof(struct yy_trans_info) * (tblend + 2 + 1);
+	footprint += sizeof(struct yy_trans_info) * (tblend + 2 + 1 + numecs);
 
 	out_dec ("m4_define([[M4_HOOK_STARTTABLE_SIZE]], [[%d]])", lastsc * 2 + 1);
 	if (gentables) {
